@@ -220,6 +220,8 @@ async def subscriber(w: World, topic: str, it):
                 val = ident_of(v)
             elif topic == 'prompt_notice':
                 val = {'trace_no': v.trace_no, 'prompt_no': v.prompt_no}
+            elif topic.startswith('prompt_info_'):
+                val = {'trace_no': v.trace_no, 'prompt_no': v.prompt_no, 'open': v.open}
             elif topic == 'trace_nos':
                 val = list(v)
             w.log(k='pub', topic=topic, value=val)
@@ -499,6 +501,22 @@ async def run_scenario(w: World):
                 w.log(k='await_timeout', task=name)
         elif op == 'subscribe':
             open_subs(w, tag=step[1] if len(step) > 1 else '#2')
+        elif op == 'subscribe_prompt_info_for':
+            # a subscriber of the per-trace prompt stream, attached now (while the stream is live)
+            t = asyncio.ensure_future(subscriber(w, f'prompt_info_{step[1]}', w.nl.subscribe_prompt_info_for(step[1])))
+            w.subs.append(t)
+            w.log(k='sub_start', topic=f'prompt_info_{step[1]}')
+        elif op == 'other_object_cycle':
+            # ANOTHER Nextline object in the same process goes through a whole life: start, a non-interactive run of a
+            # trivial script, close.  Objects must not share state.
+            from nextline import Nextline
+            other = Nextline('x = 1\ny = 2\n')
+            try:
+                async with other:
+                    await asyncio.wait_for(other.run_continue_and_wait(), 30)
+                w.log(k='other_object', res='ok')
+            except BaseException as e:    # noqa
+                w.log(k='other_object', res=type(e).__name__)
         elif op == 'peek':
             # read-only: a client looking at the object (statement, source, run number, state)
             w.log(k='peek', run_no=getattr(w.nl, 'run_no', None), **shown(w))
